@@ -132,18 +132,27 @@ theorem KReachP.reach {c : Nat} {st : St V} {S : List (Ent V)} {last : Option In
   | new => exact KReach.new
   | step op _ hc hs ih => exact KReach.step op ih hc hs
 
+/-- the growth invariant (arena length, growth increment) along expiring-tree histories -/
+theorem KReachP.growth {c : Nat} {st : St V} {S : List (Ent V)} {last : Option Int} {pk : Nat}
+    (h : KReachP c st S last pk) : Growth (max c 8) pk st := by
+  induction h with
+  | new => exact ⟨by simp [St.new], by simp [St.new, Pool.new], by simp only [St.new, Pool.new]; omega, by simp only [St.new, Pool.new]; omega⟩
+  | @step st st' S last pk op r vals tr hr hc hs ih =>
+    exact (St.kstep_growth st op (max c 8) pk (by omega) hr.reach.inv.1 ih hs).1
+
+/-- one operation stores at most one entry more than the peak so far -/
+theorem KReachP.step_size {c : Nat} {st st' : St V} {S : List (Ent V)} {last : Option Int} {pk : Nat}
+    (h : KReachP c st S last pk) (op : KOp V) {r : Option V} {vals : List V} {tr : List (Ev V)}
+    (hs : st.kstep op = some (st', r, vals, tr)) : st'.tree.size ≤ pk + 1 :=
+  (St.kstep_growth st op (max c 8) pk (by omega) h.reach.inv.1 h.growth hs).2
+
 /-- **storage bound for the expiring tree**: along any in-contract history — lazy removals during
 queries, re-insertions, export purges, clears — the arena never holds more than
 `max(max(c,8), 3·(peak+1))` slots, `peak` = the largest number of entries physically stored after any
 operation -/
 theorem C11_key_storage_bound {c : Nat} {st : St V} {S : List (Ent V)} {last : Option Int} {pk : Nat}
     (h : KReachP c st S last pk) : st.pool.bufLen ≤ max (max c 8) (3 * (pk + 1)) := by
-  have key : Growth (max c 8) pk st := by
-    induction h with
-    | new => exact ⟨by simp [St.new], by simp [St.new, Pool.new], by simp only [St.new, Pool.new]; omega, by simp only [St.new, Pool.new]; omega⟩
-    | @step st st' S last pk op r vals tr hr hc hs ih =>
-      exact St.kstep_growth st op (max c 8) pk (by omega) hr.reach.inv.1 ih hs
-  exact key.buf_le
+  exact h.growth.buf_le
 
 /-! non-vacuity -/
 example : ∃ st : St Nat, ReachP 0 st 1 ∧ st.pool.bufLen = 8 :=
